@@ -35,7 +35,7 @@ PROBES = ["creation_inside_reset_cache_callback", "callback_failed_inside_reset_
 EXHAUSTIVE = {"quick": False, "thorough": False}
 
 ALPHABET = ["A", "B", "C", "D", "E", "F", "G"]
-STATES = ["idle", "busy", "done"]
+STATES = ["idle", "busy", "done", "unbusy"]       # (a state's name may contain another state's name: they are different states)
 
 
 def concrete(sym, shadow):
